@@ -202,6 +202,9 @@ class EvolveStateVector(torch.autograd.Function):
             krylov_tolerance (float): tolerance for krylov_exp
             pulser_lindblads: unused, present for compatibility with EvolveDensityMatrix
         """
+        # krylov_exp normalises `state` in place: the tensor saved for backward
+        # is the normalised one, so remember the norm
+        state_norm = state.norm()
         res, ham = EvolveStateVector.evolve(
             dt,
             omegas,
@@ -213,6 +216,7 @@ class EvolveStateVector(torch.autograd.Function):
             pulser_lindblads,
         )
         ctx.save_for_backward(omegas, deltas, phis, interaction_matrix, state)
+        ctx.state_norm = state_norm
         ctx.dt = dt
         ctx.tolerance = krylov_tolerance
         return res, ham
@@ -318,7 +322,7 @@ class EvolveStateVector(torch.autograd.Function):
             del lanczos_vectors_state
             Vg = torch.stack(lanczos_vectors_grad)
             del lanczos_vectors_grad
-            e_l = dS.mT @ Vs
+            e_l = ctx.state_norm * (dS.mT @ Vs)
 
         if ctx.needs_input_grad[1]:
             grad_omegas = torch.zeros_like(omegas)
